@@ -263,8 +263,19 @@ func (e *Exec) domTerm() *Term {
 		key := domKey{v, *d}
 		t, ok := e.domTerms[key]
 		if !ok {
-			n := 1 << v.W
+			n := nvals(v)
 			t = e.ctx.False
+			if v.W == 0 {
+				switch d[0] & 3 {
+				case 1:
+					t = e.ctx.Not(v)
+				case 2:
+					t = v
+				case 3:
+					t = e.ctx.True
+				}
+				n = 0
+			}
 			for k := 0; k < n; {
 				if d[k>>6]&(1<<(uint(k)&63)) == 0 {
 					k++
@@ -306,7 +317,7 @@ func (e *Exec) domainOf(v *Term) [4]uint64 {
 		return *d
 	}
 	var d [4]uint64
-	n := 1 << v.W
+	n := nvals(v)
 	for k := 0; k < n; k++ {
 		d[k>>6] |= 1 << (uint(k) & 63)
 	}
